@@ -112,3 +112,83 @@ Example c12_observed :
   | _ => False
   end.
 Proof. vm_compute. reflexivity. Qed.
+
+(* ---- WHOLE CALL HISTORIES (Proofs/IterHistory.v) ------------------------------------------------------
+   [history next src k it]: k successive next() calls; after each one: what it returned, how many
+   bytes have been pulled from the source so far, and what the source still holds.  Whatever k is
+   (and whatever the caller does between the calls: the iterator owns its cursor), every call
+   satisfies [call_ok]: the source holds exactly the bytes of h not yet pulled, in order; a returned
+   match ending at e leaves exactly e bytes pulled; None leaves the source drained. *)
+From DV Require Import Proofs.IterHistory.
+
+Theorem bw_find_history_exact :
+  forall V sget oget nslots (h : list N) k hs,
+    history V find_it (find_next V sget oget nslots) f_src k (find_init h) = Ok hs -> Forall (call_ok V h) hs.
+Proof.
+  intros V sget oget nslots h k hs H.
+  apply (history_exact V find_it (find_next V sget oget nslots) f_src (fun it => src_inv h (f_src it)) h) with (k := k) (it := find_init h); [| |exact H].
+  - intros it r it' HI E. destruct (bw_find_pull_exact V sget oget nslots h it r it' HI E) as [H1 H2].
+    split; [exact H1|]. split; [exact H1|]. destruct r as [m|]; [destruct H2; split; [assumption|lia]|exact H2].
+  - apply source_invariant_initially.
+Qed.
+Print Assumptions bw_find_history_exact.
+
+Theorem bw_nosuffix_history_exact :
+  forall V sget oget nslots (h : list N) k hs,
+    history V nos_it (nos_next V sget oget nslots) x_src k (nos_init h) = Ok hs -> Forall (call_ok V h) hs.
+Proof.
+  intros V sget oget nslots h k hs H.
+  apply (history_exact V nos_it (nos_next V sget oget nslots) x_src (fun it => src_inv h (x_src it)) h) with (k := k) (it := nos_init h); [| |exact H].
+  - intros it r it' HI E. destruct (bw_nosuffix_pull_exact V sget oget nslots h it r it' HI E) as [H1 H2].
+    split; [exact H1|]. split; [exact H1|]. destruct r as [m|]; [destruct H2; split; [assumption|lia]|exact H2].
+  - apply source_invariant_initially.
+Qed.
+Print Assumptions bw_nosuffix_history_exact.
+
+Theorem bw_overlapping_history_exact :
+  forall V sget oget nslots (h : list N) k hs,
+    history V ovl_it (ovl_next V sget oget nslots) v_src k (ovl_init h) = Ok hs -> Forall (call_ok V h) hs.
+Proof.
+  intros V sget oget nslots h k hs H.
+  apply (history_exact V ovl_it (ovl_next V sget oget nslots) v_src (ovl_inv h) h) with (k := k) (it := ovl_init h); [| |exact H].
+  - intros it r it' HI E. destruct (bw_overlapping_pull_exact V sget oget nslots h it r it' HI E) as [H1 H2].
+    split; [exact H1|]. split; [exact (proj1 H1)|]. exact H2.
+  - apply overlapping_invariant_initially.
+Qed.
+Print Assumptions bw_overlapping_history_exact.
+
+Theorem cw_find_history_exact :
+  forall V sget oget tget nslots (h : list N) k hs,
+    history V find_it (cfind_next V sget oget tget nslots) f_src k (find_init h) = Ok hs -> Forall (call_ok V h) hs.
+Proof.
+  intros V sget oget tget nslots h k hs H.
+  apply (history_exact V find_it (cfind_next V sget oget tget nslots) f_src (fun it => src_inv h (f_src it)) h) with (k := k) (it := find_init h); [| |exact H].
+  - intros it r it' HI E. destruct (cw_find_pull_exact V sget oget tget nslots h it r it' HI E) as [H1 H2].
+    split; [exact H1|]. split; [exact H1|]. destruct r as [m|]; [destruct H2; split; [assumption|lia]|exact H2].
+  - apply source_invariant_initially.
+Qed.
+Print Assumptions cw_find_history_exact.
+
+Theorem cw_nosuffix_history_exact :
+  forall V sget oget tget nslots (h : list N) k hs,
+    history V nos_it (cnos_next V sget oget tget nslots) x_src k (nos_init h) = Ok hs -> Forall (call_ok V h) hs.
+Proof.
+  intros V sget oget tget nslots h k hs H.
+  apply (history_exact V nos_it (cnos_next V sget oget tget nslots) x_src (fun it => src_inv h (x_src it)) h) with (k := k) (it := nos_init h); [| |exact H].
+  - intros it r it' HI E. destruct (cw_nosuffix_pull_exact V sget oget tget nslots h it r it' HI E) as [H1 H2].
+    split; [exact H1|]. split; [exact H1|]. destruct r as [m|]; [destruct H2; split; [assumption|lia]|exact H2].
+  - apply source_invariant_initially.
+Qed.
+Print Assumptions cw_nosuffix_history_exact.
+
+Theorem cw_overlapping_history_exact :
+  forall V sget oget tget nslots (h : list N) k hs,
+    history V ovl_it (covl_next V sget oget tget nslots) v_src k (ovl_init h) = Ok hs -> Forall (call_ok V h) hs.
+Proof.
+  intros V sget oget tget nslots h k hs H.
+  apply (history_exact V ovl_it (covl_next V sget oget tget nslots) v_src (ovl_inv h) h) with (k := k) (it := ovl_init h); [| |exact H].
+  - intros it r it' HI E. destruct (cw_overlapping_pull_exact V sget oget tget nslots h it r it' HI E) as [H1 H2].
+    split; [exact H1|]. split; [exact (proj1 H1)|]. exact H2.
+  - apply overlapping_invariant_initially.
+Qed.
+Print Assumptions cw_overlapping_history_exact.
